@@ -21,7 +21,8 @@ func unknownFieldStore(info *types.Info, mc *msgCode, us *unmarshalShape) (strin
 		return "", false
 	}
 	recv := recvObj(info, mc.unmarshal)
-	name, spread := "", false
+	name := ""
+	allCopy := true
 	for _, s := range us.deflt.Body {
 		ast.Inspect(s, func(n ast.Node) bool {
 			as, ok := n.(*ast.AssignStmt)
@@ -35,16 +36,21 @@ func unknownFieldStore(info *types.Info, mc *msgCode, us *unmarshalShape) (strin
 			if id, ok := se.X.(*ast.Ident); !ok || info.Uses[id] != recv {
 				return true
 			}
-			if c, ok := as.Rhs[0].(*ast.CallExpr); ok {
-				if id, ok := c.Fun.(*ast.Ident); ok && id.Name == "append" {
-					name = se.Sel.Name
-					spread = c.Ellipsis != token.NoPos
-				}
+			name = se.Sel.Name
+			// the only accepted store is  m.store = append(m.store, raw...)  (copies the raw bytes)
+			c, ok := as.Rhs[0].(*ast.CallExpr)
+			if !ok {
+				allCopy = false
+				return true
+			}
+			id, ok := c.Fun.(*ast.Ident)
+			if !ok || id.Name != "append" || c.Ellipsis == token.NoPos || len(c.Args) != 2 || types.ExprString(c.Args[0]) != types.ExprString(as.Lhs[0]) {
+				allCopy = false
 			}
 			return true
 		})
 	}
-	return name, name != "" && spread
+	return name, name != "" && allCopy
 }
 
 func checkC07(r *core.Result) {
@@ -71,7 +77,7 @@ func checkC07(r *core.Result) {
 			us := dissectUnmarshal(info, mc)
 			store, byCopy := unknownFieldStore(info, mc, us)
 			pos := mc.pos(ex, mc.unmarshal.Pos())
-			r.GroupOb("K-stored", "unknown fields are appended (copied) to the message's unknown-field storage", mc.name(), pos, store != "" && byCopy, "the default arm does not keep the skipped field by spread-append")
+			r.GroupOb("K-stored", "unknown fields are appended (copied) to the message's unknown-field storage", mc.name(), pos, store != "" && byCopy, "the default arm stores the skipped field other than by m.store = append(m.store, raw...): the storage then aliases the input buffer (later appends write into the caller's buffer, reuse of the buffer changes the unknown fields)")
 			if store == "" {
 				continue
 			}
@@ -175,6 +181,53 @@ func checkC09(r *core.Result) {
 			})
 			r.GroupOb("H-stale", "Size() returns a value loaded from the size cache", mc.name(), mc.pos(ex, mc.size.Pos()), !stale.IsValid(),
 				"Size() returns the cached value when it is positive: after a field is mutated (or the underlying runtime stored its own size) Marshal() allocates from the old size and MarshalTo overruns or under-fills the buffer")
+			// (i') the value stored in the cache is the value returned: the accumulator handed to the atomic
+			// store is the one returned and nothing is added to it afterwards
+			{
+				var acc types.Object
+				if n := len(mc.size.Body.List); n > 0 {
+					if ret, ok := mc.size.Body.List[n-1].(*ast.ReturnStmt); ok && len(ret.Results) == 1 {
+						if id, ok := ret.Results[0].(*ast.Ident); ok {
+							acc = info.Uses[id]
+						}
+					}
+				}
+				storePos, storesAcc := token.NoPos, false
+				ast.Inspect(mc.size.Body, func(nn ast.Node) bool {
+					c, ok := nn.(*ast.CallExpr)
+					if !ok || !isAtomicCall(info, c) || !strings.HasPrefix(types.ExprString(c.Fun), "atomic.Store") || len(c.Args) != 2 {
+						return true
+					}
+					storePos = c.Pos()
+					ast.Inspect(c.Args[1], func(m ast.Node) bool {
+						if id, ok := m.(*ast.Ident); ok && acc != nil && info.Uses[id] == acc {
+							storesAcc = true
+						}
+						return true
+					})
+					return true
+				})
+				late := token.NoPos
+				if storePos.IsValid() {
+					ast.Inspect(mc.size.Body, func(nn ast.Node) bool {
+						switch x := nn.(type) {
+						case *ast.AssignStmt:
+							for _, l := range x.Lhs {
+								if id, ok := l.(*ast.Ident); ok && acc != nil && info.Uses[id] == acc && x.Pos() > storePos {
+									late = x.Pos()
+								}
+							}
+						case *ast.IncDecStmt:
+							if id, ok := x.X.(*ast.Ident); ok && acc != nil && info.Uses[id] == acc && x.Pos() > storePos {
+								late = x.Pos()
+							}
+						}
+						return true
+					})
+				}
+				r.GroupOb("H-cache-final", "the size stored in the cache is the size returned", mc.name(), mc.pos(ex, mc.size.Pos()), acc != nil && storePos.IsValid() && storesAcc && !late.IsValid(),
+					"the cached size is not the final computed size (the accumulator is changed after the atomic store, or another value is stored): the next Size()/Marshal() uses a wrong size although nothing was mutated")
+			}
 			// (ii) cache only through sync/atomic; no stores to message fields
 			for _, fd := range []*ast.FuncDecl{mc.size, mc.marshal, mc.marshalTo} {
 				rv := recvObj(info, fd)
